@@ -484,6 +484,11 @@ def _(ctx):
             return tgt
         if isinstance(tgt, VecV):
             return tgt
+        if isinstance(tgt, (Ref, SliceRef, EmptySlice)):
+            # cloning a shared reference copies the reference
+            return tgt
+        if isinstance(tgt, Enum) and tgt.path == OPTION:
+            return tgt
     return NotImplemented
 
 
@@ -787,6 +792,22 @@ def _(ctx):
     it = ctx.interp
     s = deref_seq(ctx, ctx.args[0])
     idx = ctx.args[1]
+    if isinstance(idx, Struct) and not isinstance(s, EmptySlice):
+        # `s.get(a..b)`: the sub-slice when the range lies inside, None otherwise (never a panic)
+        name = idx.path.split('::')[-1]
+        ln = slice_len(it, s)
+        if name == 'RangeFrom':
+            a = idx.fields[0]
+            return opt(mk_icmp('le', a, ln), SliceRef(s.root, s.path, it.iadd(s.start, a), s.end, s.mut))
+        if name == 'RangeTo':
+            b = idx.fields[0]
+            return opt(mk_icmp('le', b, ln), SliceRef(s.root, s.path, s.start, it.iadd(s.start, b), s.mut))
+        if name == 'Range':
+            a, b = idx.fields
+            return opt(mk_and(mk_icmp('le', a, b), mk_icmp('le', b, ln)),
+                       SliceRef(s.root, s.path, it.iadd(s.start, a), it.iadd(s.start, b), s.mut))
+        if name == 'RangeFull':
+            return opt(TRUE, s)
     if not isinstance(idx, tuple):
         raise Unsupported('slice::get with a range')
     if isinstance(s, EmptySlice):
@@ -917,15 +938,24 @@ def isatsub(a, b):
     return ('isatsub', a, b)
 
 
+INF_LEN = ('inflen',)
+
+
 def stream_len(it, st, s):
     k = s.kind
     if k == 'src':
         return slice_len(it, s.parts[0])
     if k in ('rev', 'cloned', 'enumerate', 'map', 'fmap'):
         return stream_len(it, st, s.parts[0])
+    if k == 'repeatw':
+        return INF_LEN
     if k == 'zip':
         a = stream_len(it, st, s.parts[0])
         b = stream_len(it, st, s.parts[1])
+        if a == INF_LEN:
+            return b
+        if b == INF_LEN:
+            return a
         if a == b:
             return a
         from .terms import NF
@@ -965,6 +995,8 @@ def stream_nonempty(it, st, s):
         return nonempty(it, s.parts[0])
     if k in ('rev', 'cloned', 'enumerate', 'map', 'fmap'):
         return stream_nonempty(it, st, s.parts[0])
+    if k == 'repeatw':
+        return TRUE
     if k == 'zip':
         return mk_and(stream_nonempty(it, st, s.parts[0]), stream_nonempty(it, st, s.parts[1]))
     if k == 'lit':
@@ -1078,6 +1110,8 @@ def stream_elem(ctx, s, i):
         return payload_
     if k == 'opaque':
         return Opaque(('selem', s.parts[0], i))
+    if k == 'repeatw':
+        return it.call_closure(ctx, s.parts[0], [])
     if k == 'range':
         return it.iadd(s.parts[0], i)
     if k == 'windows':
@@ -1217,6 +1251,26 @@ def _(ctx):
 @model('std::iter::Iterator::zip')
 def _(ctx):
     return Stream('zip', (_stream_arg(ctx, ctx.args[0]), to_stream(ctx, ctx.args[1])))
+
+
+@model('std::iter::zip')
+def _(ctx):
+    """`iter::zip(a, b)` is `a.into_iter().zip(b)`"""
+    return Stream('zip', (to_stream(ctx, ctx.args[0]), to_stream(ctx, ctx.args[1])))
+
+
+@model('<bool>::then_some')
+def _(ctx):
+    c = scalar(ctx, ctx.args[0])
+    return opt(c, ctx.args[1])
+
+
+@model('<bool>::then')
+def _(ctx):
+    c = scalar(ctx, ctx.args[0])
+    if c == FALSE:
+        return none()
+    return opt(c, _with_closure(ctx, c, ctx.args[1], []))
 
 
 @model('std::iter::Iterator::chain')
@@ -2393,6 +2447,25 @@ def _range_bound(R, rpol, c):
     return None
 
 
+def _range_lower(R, rpol, c):
+    """bound b such that the literal (R, rpol) says c > b (`c != 0` on an unsigned cursor is `c > 0`)"""
+    if R[0] != 'icmp':
+        return None
+    if R[2] == c:
+        op, b = R[1], R[3]
+        if (op == 'gt' and rpol) or (op == 'le' and not rpol):
+            return b
+        if b == iconst(0) and ((op == 'ne' and rpol) or (op == 'eq' and not rpol)):
+            return b
+    if R[3] == c:
+        op, b = R[1], R[2]
+        if (op == 'lt' and rpol) or (op == 'ge' and not rpol):
+            return b
+        if b == iconst(0) and ((op == 'ne' and rpol) or (op == 'eq' and not rpol)):
+            return b
+    return None
+
+
 def _close_lockstep_loop(it, frame, summ):
     """SEARCH-LOOP, lockstep form: one or two forward cursors (slice iterators, slice views) that all advance by one element
     per iteration while every one of them is in range and a test on the elements at the cursors holds
@@ -2409,6 +2482,7 @@ def _close_lockstep_loop(it, frame, summ):
     # cursors: every carried leaf must be a stream / slice view whose differing terms advance by one
     cursors = []          # (head symbol, initial term)
     derived = []          # (head symbol, initial term, value after an iteration as a term over the cursors)
+    backward = False
     for r, p, fv, iv in summ.carried:
         cur = []
         if isinstance(fv, Stream) and isinstance(iv, Stream):
@@ -2438,6 +2512,11 @@ def _close_lockstep_loop(it, frame, summ):
         step = {b_: a_ for b_, a_ in adv}
         for orig, head in cur:
             nxt_ = step.get(head, head)
+            if nxt_ == it.isub(head, iconst(1)) and len(summ.carried) == 1 and not isinstance(fv, Ref):
+                # the one cursor walks down (`match rest.split_last() { Some((seg, earlier)) => … rest = earlier }`)
+                cursors.append((head, orig))
+                backward = True
+                continue
             if nxt_ == it.iadd(head, iconst(1)) and not isinstance(fv, (Ref,)) and not (isinstance(fv, tuple)):
                 cursors.append((head, orig))
             elif head not in set(subterms(nxt_)):
@@ -2471,11 +2550,14 @@ def _close_lockstep_loop(it, frame, summ):
     (Q, qpol) = tests[0]
     bounds = {}
     rlit = {}
+    _rb = _range_lower if backward else _range_bound
+    if backward and (len(cursors) != 1 or derived):
+        return 'a cursor that walks down next to other carried values'
     for R, rpol in ranges:
-        hit = [c for c in csyms if _range_bound(R, rpol, c) is not None]
+        hit = [c for c in csyms if _rb(R, rpol, c) is not None]
         if len(hit) != 1 or hit[0] in bounds:
             return 'range literal %s is not `cursor < bound`' % term_str(R)
-        bounds[hit[0]] = _range_bound(R, rpol, hit[0])
+        bounds[hit[0]] = _rb(R, rpol, hit[0])
         rlit[hit[0]] = _lit(R, rpol)
     P = mk_not(Q) if qpol else Q          # the loop goes on while the test holds: it searches for ¬test
     st0 = summ.entry_state
@@ -2494,12 +2576,21 @@ def _close_lockstep_loop(it, frame, summ):
         loc = _find_seq_storage(it, st0, seqterm)
         if loc is None:
             return 'storage of %s not found' % term_str(seqterm)
-        bases.append(Stream('src', (SliceRef(loc[0], loc[1], it.iadd(c0, off), it.iadd(bounds[c], off), False), 'ref')))
-    Pk = recanon(it, subst_term(P, {c: it.iadd(c0, k) for c, c0 in cursors}))
+        if backward:
+            # cursor c runs c0, c0−1, …, lo+1 and looks at element c + off: the elements lo+1+off … c0+off, from the back
+            bases.append(Stream('src', (SliceRef(loc[0], loc[1], it.iadd(it.iadd(bounds[c], iconst(1)), off),
+                                                 it.iadd(it.iadd(c0, off), iconst(1)), False), 'ref')))
+        else:
+            bases.append(Stream('src', (SliceRef(loc[0], loc[1], it.iadd(c0, off), it.iadd(bounds[c], off), False), 'ref')))
+    if backward:
+        c_, c0_ = cursors[0]
+        Pk = recanon(it, subst_term(P, {c_: it.iadd(it.iadd(bounds[c_], iconst(1)), k)}))
+    else:
+        Pk = recanon(it, subst_term(P, {c: it.iadd(c0, k) for c, c0 in cursors}))
     base = bases[0] if len(bases) == 1 else Stream('zip', (bases[0], bases[1]))
     sterm = it.abstract(st0, base)
     found = ('found', sterm, k, Pk)
-    idx = ('firstidx', sterm, k, Pk)
+    idx = ('lastidx' if backward else 'firstidx', sterm, k, Pk)
     left = {c: it.isub(bounds[c], c0) for c, c0 in cursors}      # elements left on entry
     # The last (incomplete) iteration happens at ι* = number of completed iterations.  Cases:
     #   found                 : every cursor in range, the test fails, ι* = firstidx
@@ -2507,7 +2598,11 @@ def _close_lockstep_loop(it, frame, summ):
     cases = []
     hit_asg = {rlit[c]: True for c in csyms}
     hit_asg[_lit(Q, qpol)] = False
-    cases.append((((found, True, None),), {found}, {c: it.iadd(c0, idx) for c, c0 in cursors}, hit_asg))
+    if backward:
+        c_, c0_ = cursors[0]
+        cases.append((((found, True, None),), {found}, {c_: it.iadd(it.iadd(bounds[c_], iconst(1)), idx)}, hit_asg))
+    else:
+        cases.append((((found, True, None),), {found}, {c: it.iadd(c0, idx) for c, c0 in cursors}, hit_asg))
     if len(csyms) == 1:
         c = csyms[0]
         cases.append((((found, False, None),), {mk_not(found)}, {c: bounds[c]}, {rlit[c]: False}))
@@ -2578,10 +2673,54 @@ def _close_lockstep_loop(it, frame, summ):
                 out.setdefault(t, []).append(State(store, tuple(newg) + tuple(keep), frozenset(facts | newf)))
     if not out:
         return 'no feasible exit'
-    it.events.append({'kind': 'search', 'op': 'loop', 'fn': frame.f['path'], 'line': summ.line, 'stream': base, 'base': base, 'rev': False,
+    it.events.append({'kind': 'search', 'op': 'loop', 'fn': frame.f['path'], 'line': summ.line, 'stream': base, 'base': base, 'rev': backward,
                       'ivar': k, 'pred': Pk, 'idx': idx, 'found': found, 'from_loop': True})
     summ.recognised = 'SEARCH-LOOP (lockstep)'
     return out
+
+
+def _index_cursor_as_range(it, summ, scal):
+    """a copy of the loop summary in which the one integer cursor c with back guard [c < B], back value c + 1 and exit
+    guard [c ≥ B] (B loop-invariant) is held as the stream `c..B` — the form the traversal closer reads"""
+    import types
+    from .terms import subterms
+    bs = summ.back_states[0]
+    bg = [_lit(l[0], l[1]) for l in bs.guard]
+    if len(bg) != 1 or bg[0][0] != 'icmp' or bg[0][1] != 'lt':
+        return None
+    c, B = bg[0][2], bg[0][3]
+    hit = [(r, p, fv, iv) for r, p, fv, iv in scal if fv == c]
+    if len(hit) != 1 or not isinstance(hit[0][3], tuple):
+        return None
+    carried_syms = {fv for _, _, fv, _ in scal}
+    if any(x in carried_syms for x in subterms(B)):
+        return None
+    r, p, fv, iv = hit[0]
+    try:
+        if it.read(bs, r, p) != it.iadd(c, iconst(1)):
+            return None
+    except Unsupported:
+        return None
+    exits = [(t, s_) for t, ss in summ.exit_states.items() for s_ in ss]
+    if len(exits) != 1 or [_lit(l[0], l[1]) for l in exits[0][1].guard] != [mk_not(bg[0])]:
+        return None
+
+    def with_stream(st, start):
+        st2 = State(dict(st.store), st.guard, st.facts)
+        try:
+            it.write(st2, r, p, Stream('range', (start, B)))
+        except (Unsupported, IndexError):
+            # the place no longer exists on this way out (the state enum has left the variant that holds the cursor)
+            return st
+        return st2
+    v = types.SimpleNamespace(**{k_: getattr(summ, k_) for k_ in ('fn', 'header', 'frame', 'line', 'entry_state') if hasattr(summ, k_)})
+    v.carried = [(r_, p_, (Stream('range', (c, B)) if (r_, p_) == (r, p) else fv_), (Stream('range', (iv, B)) if (r_, p_) == (r, p) else iv_))
+                 for r_, p_, fv_, iv_ in summ.carried]
+    v.head_state = with_stream(summ.head_state, c)
+    v.back_states = [with_stream(bs, it.iadd(c, iconst(1)))]
+    v.exit_states = {exits[0][0]: [with_stream(exits[0][1], c)]}
+    v.recognised = None
+    return v
 
 
 def close_build_loop_generic(it, frame, summ):
@@ -2592,6 +2731,14 @@ def close_build_loop_generic(it, frame, summ):
     seqs = [(r, p, fv, iv) for r, p, fv, iv in summ.carried if isinstance(fv, SeqSym)]
     streams = [(r, p, fv, iv) for r, p, fv, iv in summ.carried if isinstance(fv, Stream)]
     scal = [(r, p, fv, iv) for r, p, fv, iv in summ.carried if isinstance(fv, tuple) and fv and fv[0] == 'sym']
+    if len(seqs) == 1 and not streams and scal and len(seqs) + len(scal) == len(summ.carried) and len(summ.back_states) == 1:
+        # an index cursor (`while c < n { … c += 1 }`, `match s.get(c) { Some(..) => …, None => break }`) is the range c₀..n
+        v = _index_cursor_as_range(it, summ, scal)
+        if v is not None:
+            r_ = close_build_loop_generic(it, frame, v)
+            if r_ is not None:
+                summ.recognised = v.recognised
+            return r_
     if len(seqs) != 1 or len(streams) != 1 or len(seqs) + len(streams) + len(scal) != len(summ.carried) or len(summ.back_states) != 1:
         return None
     (qr, qp, qf, q0), (ir, ip, if_, i0) = seqs[0], streams[0]
@@ -2641,7 +2788,15 @@ def close_build_loop_generic(it, frame, summ):
         if it.read(es, qr, qp) != qf:
             return None
         for r, p, fv, iv in scal:
-            if it.read(es, r, p) != fv:
+            if any(st_[0] == 'd' for st_ in p):
+                # a scalar held in the payload of a state enum: gone (not changed) when the loop is left in another state
+                try:
+                    ev_ = it.read(es, r, p)
+                except (Unsupported, IndexError):
+                    continue
+            else:
+                ev_ = it.read(es, r, p)
+            if ev_ != fv:
                 return None
     except Unsupported:
         return None
@@ -3217,6 +3372,15 @@ def close_inplace_loop(it, frame, summ):
     it.events.append({'kind': 'scan', 'fn': frame.f['path'], 'line': summ.line, 'seq': body, 'stream': src, 'from_loop': True, 'in_place': True,
                       'over': q0})
     return {'exit': et, 'root': qr, 'path': qp, 'value': value}
+
+
+@model('std::iter::repeat_with')
+def _(ctx):
+    """`iter::repeat_with(f)`: the endless stream f(), f(), … (each element is one call, made when it is asked for)"""
+    it = ctx.interp
+    clos = ctx.args[0]
+    cell = clos if isinstance(clos, Ref) else Ref(it.alloc(ctx.state, clos, 'clos'), (), True)
+    return Stream('repeatw', (cell,))
 
 
 @model('std::iter::from_fn')
